@@ -26,5 +26,6 @@ PROPERTY ToggleKeepsMasks
 PROPERTY ActivationIsExclusive
 PROPERTY RemoveKeepsTheRest
 PROPERTY EditsAreLocal
+PROPERTY MasksFollowShapes
 PROPERTY GrowthOnlyBySecondClick
 CHECK_DEADLOCK FALSE
